@@ -10,7 +10,7 @@ import net_sync as N
 import oracle_np as O
 
 G1 = ["X", "Y", "Z", "H", "K", "T", "Rot"]
-G1C = {"X": "NX", "Y": "NY", "Z": "NZ", "H": "NH", "K": "NK", "T": "NT", "Rot": "NRot"}
+G1C = {"X": "NX", "Y": "NY", "Z": "NZ", "H": "NH", "K": "NK", "T": "NT", "Rot": "NRot", "S": "NS"}
 G2 = ["cnot", "cphase"]
 G2C = {"cnot": "NCnot", "cphase": "NCphase"}
 KIND = {"noQubitError": "KNoQubit", "quantumError": "KQuantum", "virtNetError": "KVirtNet",
